@@ -102,6 +102,9 @@ func c13GenHist(r *rng, n int, w *bufio.Writer) {
 			nq = 10
 		}
 		world := fGenWorld(r, 30, r.n(3))
+		if r.chance(1, 3) {
+			fAddDomainCluster(r, world)
+		}
 		diff, entries, t := fHistory(r, world, nq)
 		ans := "T"
 		note := fmt.Sprintf("history of %d queries; %s", nq, world.describe())
